@@ -85,6 +85,10 @@ def extract(root="/repo", overlays=None, jobs=16):
     cdir = os.path.join(CACHE, key)
     merged = os.path.join(cdir, "facts.pkl")
     if os.path.exists(merged):
+        try:
+            os.utime(cdir)
+        except OSError:
+            pass
         return merged
     os.makedirs(cdir, exist_ok=True)
     units, notes = unit_list(root)
@@ -106,7 +110,7 @@ def extract(root="/repo", overlays=None, jobs=16):
     return merged
 
 
-def _prune_cache(keep, maxn=6):
+def _prune_cache(keep, maxn=10):
     try:
         ents = [(os.path.getmtime(os.path.join(CACHE, d)), d) for d in os.listdir(CACHE) if d != keep]
         ents.sort(reverse=True)
